@@ -10,12 +10,13 @@
 (*     tensors written: shape, element type and elements (bit patterns);       *)
 (*  S2 a read of any file returns a value or an error: it never panics,        *)
 (*     aborts or hangs.                                                        *)
+(*  (S2 is refined for numbers read from untrusted headers by H1-H4 below.)    *)
 (* A tensor is [dtype, shape, elems]; elems are bit patterns (limb sequences   *)
 (* in traces, opaque here).  Entry names are sequences of code points; an .npz *)
 (* archive documents that one trailing ".npy" of a name is dropped.            *)
 (* Names are not part of S1 beyond identifying which tensor is which: S1       *)
 (* compares the set of tensors; a changed key is counted, not flagged.         *)
-EXTENDS Naturals, Sequences, FiniteSets
+EXTENDS Naturals, Sequences, FiniteSets, Word
 
 Outcomes == {"value", "error", "panic", "abort", "timeout"}
 
@@ -29,6 +30,51 @@ ReadAllOK(written, outcome, got) == outcome = "value" /\ Tensors(got) = Tensors(
 ReadOneOK(written, name, outcome, got) ==
   /\ outcome = "value" /\ Len(got) = 1
   /\ \E i \in DOMAIN written : written[i].name = name /\ written[i].tensor = got[1].tensor
+
+\* ---- untrusted header numbers (exact arithmetic over Word limbs) ---------------
+\* The readers compute, from numbers found in the file, an element count (product
+\* of the shape dims), a byte count (element count x item size) and - for
+\* safetensors - header and data offsets.  Whatever the machine arithmetic does
+\* (wrap, saturate, trap), S2 demands value-or-error, and a VALUE may be returned
+\* only if, in exact arithmetic, the numbers describe the bytes that are there:
+\*  H1 every dim, the element count and the byte count fit in 64 bits;
+\*  H2 .npy (also as a member of an .npz): byte count <= payload bytes that follow
+\*     the header (trailing bytes are tolerated, as numpy does);
+\*  H3 .safetensors: 8 + header length <= file length, begin <= end <= length of
+\*     the data section (file length - 8 - header length), byte count = end - begin;
+\*  H4 the value returned has exactly the shape and element type of the header.
+\* A header is [fmt, isz (item size), dims, avail] plus, for safetensors,
+\* [hlen, begin, end, flen]; all numbers are Words.
+RECURSIVE WProdFrom(_, _)
+WProdFrom(dims, i) == IF i > Len(dims) THEN WOne ELSE WMul(dims[i], WProdFrom(dims, i + 1))
+ElemCount(dims) == WProdFrom(dims, 1)
+ByteCount(dims, isz) == WMul(ElemCount(dims), FromNat(isz))
+DimsFit(dims) == \A i \in DOMAIN dims : Fits64(dims[i])
+CountsFit(h) == DimsFit(h.dims) /\ Fits64(ElemCount(h.dims)) /\ Fits64(ByteCount(h.dims, h.isz))   \* H1
+NpyAcceptable(h) == CountsFit(h) /\ WLe(ByteCount(h.dims, h.isz), h.avail)                          \* H1, H2
+StAcceptable(h) ==                                                                                    \* H1, H3
+  /\ CountsFit(h)
+  /\ WLe(WAdd(FromNat(8), h.hlen), h.flen)
+  /\ WLe(h.begin, h.end)
+  /\ WLe(WAdd(WAdd(FromNat(8), h.hlen), h.end), h.flen)
+  /\ ByteCount(h.dims, h.isz) = WSub(h.end, h.begin)
+HeaderAcceptable(h) == IF h.fmt = "safetensors" THEN StAcceptable(h) ELSE NpyAcceptable(h)
+\* what a reader may answer to a crafted header: never a panic; a value only if acceptable
+HeaderReadOK(h, outcome) == Returns(outcome) /\ (outcome = "value" => HeaderAcceptable(h))
+\* product of the non-zero dims (a zero dim makes the count 0 although partial products may overflow)
+RECURSIVE WProdNZFrom(_, _)
+WProdNZFrom(dims, i) == IF i > Len(dims) THEN WOne
+                        ELSE IF dims[i] = WZero THEN WProdNZFrom(dims, i + 1)
+                        ELSE WMul(dims[i], WProdNZFrom(dims, i + 1))
+\* classification of the shape numbers (used to generate boundary families and in signatures)
+HdrShapeClass(dims, isz) ==
+  IF ~DimsFit(dims) THEN "dim_exceeds_u64"
+  ELSE IF ElemCount(dims) = WZero /\ ~Fits64(WProdNZFrom(dims, 1)) THEN "zero_dim_partial_overflow"
+  ELSE IF ~Fits64(ElemCount(dims)) THEN "elems_overflow_u64"
+  ELSE IF ~Fits64(ByteCount(dims, isz)) THEN "bytes_overflow_u64"
+  ELSE IF ~WLt(ByteCount(dims, isz), WPow2(63)) THEN "bytes_ge_2_63"
+  ELSE IF ~WLt(ByteCount(dims, isz), WPow2(32)) THEN "bytes_ge_2_32"
+  ELSE "small"
 
 Npy == <<46, 110, 112, 121>>     \* ".npy"
 HasSuffix(s, suf) == Len(s) >= Len(suf) /\ SubSeq(s, Len(s) - Len(suf) + 1, Len(s)) = suf
